@@ -38,7 +38,7 @@ type Summary struct {
 	PosExecs    int            `json:"positional_execs"`
 	Steps       int64          `json:"steps"`
 	Contended   int64          `json:"contended"`
-	SimNS       int64          `json:"sim_ns"`
+	SimNS       float64        `json:"sim_ns"` // (a float: hundreds of thousands of runs of a thousand simulated hours overflow an int64 of nanoseconds)
 	Probes      map[string]int `json:"probes"`
 	Faults      map[string]int `json:"faults"`
 	CaseKeys    []string       `json:"case_keys"`
@@ -173,7 +173,7 @@ func Main(t *testing.T) {
 		}
 		sum.Steps += int64(r.Steps)
 		sum.Contended += int64(r.Contended)
-		sum.SimNS += r.SimNS
+		sum.SimNS += float64(r.SimNS)
 		sum.Leaked += r.Leaked
 		if r.Hung {
 			sum.Hung++
